@@ -581,3 +581,198 @@ Print Assumptions C19_ts_lost_only_around_failures.
 Print Assumptions C19_ts_loss_is_reported.
 Print Assumptions C19_ts_recovery.
 Print Assumptions C19_ts_recovery_ops.
+
+(* ------------------------------------------------------------------ rotation WITH cleanup KeepLogFiles n *)
+(* Numbers naming, size criterion, direct mode, cleanup KeepLogFiles n in the caller's thread, synchronous: proofs in
+   Flw/FaultCleanupSpec.v (the specification simk and what it implies) and Flw/FaultCleanup.v (refinement).  The closed
+   files are a list of (index, content): a cleanup that failed half-way leaves gaps in the numbers. *)
+Require Import FL.Flw.NumCleanupNames FL.Flw.NumCleanupRun FL.Flw.FaultCleanupSpec FL.Flw.FaultCleanup.
+
+(* (1) every fault oracle, every list of records: the directory, the error channel and the rest of the oracle are what
+   the specification simk computes; every operation returns normally *)
+Theorem C19_cleanup_faults :
+  forall c m n t0 off fl recs,
+  numkcfg c (CSize m) (KLog n) -> c_cap c = None -> sfx_ok (c_spec c) -> (N.of_nat (length recs) <= u32_max)%N ->
+  let r := run (fsys t0 off fl) (OStart c :: List.map OWrite recs) in
+  let '(closed, ocur, errs, rest) := simk (c_append c) m n fl recs in
+  kview c (wfs (s_w (fst r))) closed ocur
+  /\ werrs (s_w (fst r)) = errs
+  /\ wfaults (s_w (fst r)) = rest
+  /\ (forall o, In o (snd r) -> exists rot, o = ObsRes 0 rot).
+Proof. exact faults_rotation_cleanup. Qed.
+
+(* (2) record by record: lg = the files closed for good, in order; the log (their contents, then the writer's file) is
+   the concatenation of the records that were kept; the closed files in the directory are some of lg, unchanged (or
+   empty files left by failed initialisations); a record is missing only if its own log call consumed a failing entry
+   and reported EWrite *)
+Theorem C19_cleanup_lost_only_around_failures :
+  forall c m n t0 off fl recs,
+  numkcfg c (CSize m) (KLog n) -> c_cap c = None -> sfx_ok (c_spec c) -> (N.of_nat (length recs) <= u32_max)%N ->
+  let x := fst (run (fsys t0 off fl) (OStart c :: List.map OWrite recs)) in
+  let t := ktrace (c_append c) m n (KInit [] false) fl recs in
+  let lg := klog (c_append c) m n (KInit [] false) fl recs in
+  exists st,
+    kview c (wfs (s_w x)) (k_closed st) (k_cur st)
+    /\ concat (List.map snd lg) ++ k_wcur st = concat (List.map t_kept t)
+    /\ (forall p, In p (k_cl st) -> In p lg \/ snd p = [])
+    /\ List.map t_rec t = recs
+    /\ werrs (s_w x) = concat (List.map t_errs t)
+    /\ fl = concat (List.map t_used t) ++ wfaults (s_w x)
+    /\ (forall e, In e t -> length (t_errs e) = ntrue (t_used e))
+    /\ (forall e, In e t -> (forall f, In f (t_used e) -> f = false) -> t_errs e = [] /\ t_kept e = t_rec e)
+    /\ (forall e, In e t -> t_kept e <> t_rec e -> In true (t_used e) /\ In EWrite (t_errs e)).
+Proof. exact faults_rotation_cleanup_trace. Qed.
+
+(* (2), (3) the log is the concatenation of a subsequence of the records; every missing record is one reported EWrite *)
+Theorem C19_cleanup_loss_is_reported :
+  forall c m n t0 off fl recs,
+  numkcfg c (CSize m) (KLog n) -> c_cap c = None -> sfx_ok (c_spec c) -> (N.of_nat (length recs) <= u32_max)%N ->
+  let x := fst (run (fsys t0 off fl) (OStart c :: List.map OWrite recs)) in
+  exists st kept,
+    kview c (wfs (s_w x)) (k_closed st) (k_cur st)
+    /\ concat (List.map snd (klog (c_append c) m n (KInit [] false) fl recs)) ++ k_wcur st = concat kept
+    /\ Subseq kept recs
+    /\ length recs = length kept + nlost (werrs (s_w x))
+    /\ nlost (werrs (s_w x)) <= length (werrs (s_w x)).
+Proof. exact faults_rotation_cleanup_stream. Qed.
+
+(* a failure inside the cleanup AT A ROTATION (rename and create have succeeded) never loses a record: the record is lost
+   only if its own write call fails; a failed cleanup is reported (ELogFile) and leaves MORE files than the limit - the
+   newest n and a front part `older` of the surplus files -, never fewer *)
+Theorem C19_cleanup_fault_loses_no_record :
+  forall m n (old : bool) (cl : cdir) idx (d b : bytes) fl2 cl2 ok fl3,
+  (m <? N.of_nat (length d))%N = true ->
+  s_cleanup n (cl ++ [(idx, d)]) fl2 = (cl2, ok, fl3) ->
+  let f := fst (wr_pop b fl3) in
+  k_active m n old cl idx d b (false :: false :: fl2)
+  = (KCur cl2 (S idx) (if f then [] else b), (if ok then [] else [ELogFile]) ++ (if f then [EWrite] else []), snd (wr_pop b fl3))
+  /\ lost ((if ok then [] else [ELogFile]) ++ (if f then [EWrite] else [])) = f
+  /\ exists older gone, cl2 = older ++ lastn n (cl ++ [(idx, d)]) /\ butlastn n (cl ++ [(idx, d)]) = older ++ gone
+       /\ (ok = true -> older = []) /\ Nat.min n (S (length cl)) <= length cl2.
+Proof. exact cleanup_fault_loses_no_record. Qed.
+
+(* ... but AT THE INITIALISATION it does: the cleanup is one more step of initialize, and a failing step of initialize
+   loses the record being written (reported with EWrite) - the statement "a failure inside the cleanup never loses a
+   record" is FALSE for the first cleanup of a writer.  Counterexample on the model: FaultCleanup.kx_init_cleanup_fails_loses_record *)
+Theorem C19_cleanup_init_fault_loses_record :
+  forall (ap : bool) m n (cl : cdir) (created : bool) (b : bytes) fl4 cl2 fl5,
+  let idx := next_idx cl in
+  let cl1 := if ap then cl else if created then cl ++ [(idx, [])] else cl in
+  s_cleanup n cl1 fl4 = (cl2, false, fl5) ->
+  k_init ap m n cl created b (false :: false :: false :: fl4) = (KInit cl2 true, [EWrite], fl5).
+Proof. exact init_cleanup_fault_loses_record. Qed.
+Definition C19_cleanup_init_counterexample := kx_init_cleanup_fails_loses_record.
+
+(* (4) the limit is restored: once the oracle is used up, the next initialisation or rotation leaves at most n closed files,
+   and so it stays; nothing more is reported *)
+Theorem C19_cleanup_limit_restored :
+  forall c m n t0 off fl recs1 b recs2,
+  numkcfg c (CSize m) (KLog n) -> c_cap c = None -> sfx_ok (c_spec c) ->
+  (N.of_nat (length (recs1 ++ b :: recs2)) <= u32_max)%N ->
+  let '(st1, e1, fl1) := simk_st (c_append c) m n (KInit [] false) fl recs1 in
+  all_false fl1 -> krotates m st1 = true ->
+  let x := fst (run (fsys t0 off fl) (OStart c :: List.map OWrite (recs1 ++ b :: recs2))) in
+  exists cl d, kview c (wfs (s_w x)) cl (Some d) /\ length cl <= n /\ werrs (s_w x) = e1.
+Proof. exact cleanup_limit_restored. Qed.
+
+(* (4) on the specification: no more reports, every further record in the log, a limit that holds keeps holding *)
+Theorem C19_cleanup_recovery_spec :
+  forall ap m n recs st fl, all_false fl -> kpending_ok m st ->
+  let '(st', e, fl') := simk_st ap m n st fl recs in
+  e = [] /\ all_false fl'
+  /\ concat (List.map snd (klog ap m n st fl recs)) ++ k_wcur st' = k_wcur st ++ concat recs
+  /\ (limit_ok n st -> limit_ok n st')
+  /\ (recs <> [] -> exists cl idx d, st' = KCur cl idx d).
+Proof. exact recovery_cleanup_spec. Qed.
+
+Print Assumptions C19_cleanup_faults.
+Print Assumptions C19_cleanup_lost_only_around_failures.
+Print Assumptions C19_cleanup_loss_is_reported.
+Print Assumptions C19_cleanup_fault_loses_no_record.
+Print Assumptions C19_cleanup_init_fault_loses_record.
+Print Assumptions C19_cleanup_limit_restored.
+Print Assumptions C19_cleanup_recovery_spec.
+
+(* ------------------------------------------------------------------ rotation with a COMPRESSING cleanup *)
+(* Numbers naming, size criterion, direct mode, cleanup KeepLogFiles a / KeepCompressedFiles b / KeepLogAndCompressedFiles a b
+   in the caller's thread (klim k = Some (ll, cl): ll files kept as they are, cl kept as archives), synchronous: proofs in
+   Flw/FaultGzSpec.v (the specification simg and what it implies) and Flw/FaultGz.v (refinement).  The closed files are
+   the plain ones pl and the archives ar, lists of (index, content); a compression that was interrupted leaves an
+   archive - empty, or with the full content - next to its original; the next cleanup removes it first. *)
+Require Import FL.Flw.NumCleanupStep FL.Flw.FaultGzSpec FL.Flw.FaultGz.
+
+Theorem C19_gz_faults :
+  forall c m k ll cl t0 off fl recs,
+  numkcfg c (CSize m) k -> klim k = Some (ll, cl) -> c_cap c = None -> sfx_ok (c_spec c) ->
+  (N.of_nat (length recs) <= u32_max)%N ->
+  let r := run (fsys t0 off fl) (OStart c :: List.map OWrite recs) in
+  let '(plain, archives, ocur, errs, rest) := simg (c_append c) m ll (ll + cl) fl recs in
+  hview c (wfs (s_w (fst r))) plain archives ocur
+  /\ werrs (s_w (fst r)) = errs
+  /\ wfaults (s_w (fst r)) = rest
+  /\ (forall o, In o (snd r) -> exists rot, o = ObsRes 0 rot).
+Proof. exact faults_rotation_gz. Qed.
+
+Theorem C19_gz_lost_only_around_failures :
+  forall c m k ll cl t0 off fl recs,
+  numkcfg c (CSize m) k -> klim k = Some (ll, cl) -> c_cap c = None -> sfx_ok (c_spec c) ->
+  (N.of_nat (length recs) <= u32_max)%N ->
+  let x := fst (run (fsys t0 off fl) (OStart c :: List.map OWrite recs)) in
+  let t := gtrace (c_append c) m ll (ll + cl) (GInit [] [] false) fl recs in
+  let lg := glog (c_append c) m ll (ll + cl) (GInit [] [] false) fl recs in
+  exists st,
+    hview c (wfs (s_w x)) (g_plain st) (g_arch st) (g_cur st)
+    /\ concat (List.map snd lg) ++ g_wcur st = concat (List.map t_kept t)
+    /\ (forall p, In p (g_pl st) \/ In p (g_arch st) -> In p lg \/ snd p = [])
+    /\ List.map t_rec t = recs
+    /\ werrs (s_w x) = concat (List.map t_errs t)
+    /\ fl = concat (List.map t_used t) ++ wfaults (s_w x)
+    /\ (forall e, In e t -> length (t_errs e) = ntrue (t_used e))
+    /\ (forall e, In e t -> (forall f, In f (t_used e) -> f = false) -> t_errs e = [] /\ t_kept e = t_rec e)
+    /\ (forall e, In e t -> t_kept e <> t_rec e -> In true (t_used e) /\ In EWrite (t_errs e)).
+Proof. exact faults_rotation_gz_trace. Qed.
+
+Theorem C19_gz_loss_is_reported :
+  forall c m k ll cl t0 off fl recs,
+  numkcfg c (CSize m) k -> klim k = Some (ll, cl) -> c_cap c = None -> sfx_ok (c_spec c) ->
+  (N.of_nat (length recs) <= u32_max)%N ->
+  let x := fst (run (fsys t0 off fl) (OStart c :: List.map OWrite recs)) in
+  exists st kept,
+    hview c (wfs (s_w x)) (g_plain st) (g_arch st) (g_cur st)
+    /\ concat (List.map snd (glog (c_append c) m ll (ll + cl) (GInit [] [] false) fl recs)) ++ g_wcur st = concat kept
+    /\ Subseq kept recs
+    /\ length recs = length kept + nlost (werrs (s_w x))
+    /\ nlost (werrs (s_w x)) <= length (werrs (s_w x)).
+Proof. exact faults_rotation_gz_stream. Qed.
+
+(* a failure inside the cleanup at a rotation - listing, removal of a redundant archive, any step of a compression, a
+   removal - never loses a record; the cleanup only deletes and compresses (arch_of: an archive holds the content of its
+   original, or nothing) *)
+Theorem C19_gz_cleanup_fault_loses_no_record :
+  forall m ll total (old : bool) (pl ar : cdir) idx (d b : bytes) fl2 pl2 ar2 ok fl3,
+  (m <? N.of_nat (length d))%N = true ->
+  g_cleanup ll total (pl ++ [(idx, d)]) ar fl2 = (pl2, ar2, ok, fl3) ->
+  let f := fst (wr_pop b fl3) in
+  g_active m ll total old pl ar idx d b (false :: false :: fl2)
+  = (GCur pl2 ar2 (S idx) (if f then [] else b), (if ok then [] else [ELogFile]) ++ (if f then [EWrite] else []), snd (wr_pop b fl3))
+  /\ lost ((if ok then [] else [ELogFile]) ++ (if f then [EWrite] else [])) = f
+  /\ (forall p, In p pl2 -> In p (pl ++ [(idx, d)]))
+  /\ (forall p, In p ar2 -> In p ar \/ arch_of (pl ++ [(idx, d)]) p).
+Proof. exact cleanup_fault_loses_no_record_g. Qed.
+
+(* the limits are restored by the first cleanup that gets through *)
+Theorem C19_gz_limit_restored :
+  forall c m k ll cl t0 off fl recs1 b recs2,
+  numkcfg c (CSize m) k -> klim k = Some (ll, cl) -> c_cap c = None -> sfx_ok (c_spec c) ->
+  (N.of_nat (length (recs1 ++ b :: recs2)) <= u32_max)%N ->
+  let '(st1, e1, fl1) := simg_st (c_append c) m ll (ll + cl) (GInit [] [] false) fl recs1 in
+  all_false fl1 -> grotates m st1 = true ->
+  let x := fst (run (fsys t0 off fl) (OStart c :: List.map OWrite (recs1 ++ b :: recs2))) in
+  exists pl ar d, hview c (wfs (s_w x)) pl ar (Some d) /\ length pl <= ll /\ length pl + length ar <= ll + cl /\ werrs (s_w x) = e1.
+Proof. exact gz_limit_restored. Qed.
+
+Print Assumptions C19_gz_faults.
+Print Assumptions C19_gz_lost_only_around_failures.
+Print Assumptions C19_gz_loss_is_reported.
+Print Assumptions C19_gz_cleanup_fault_loses_no_record.
+Print Assumptions C19_gz_limit_restored.
